@@ -8,6 +8,7 @@ package harness
 
 import (
 	"bufio"
+	"errors"
 	"encoding/binary"
 	"encoding/json"
 	"fmt"
@@ -19,6 +20,9 @@ import (
 	"sync"
 	"testing"
 )
+
+// errInconclusive: a case could not be decided (tool timeout); never a violation.
+var errInconclusive = errors.New("inconclusive")
 
 const maxSamples = 8
 const maxHashes = 400000 // distinct_nontrivial is counted conservatively up to this cap per shard
